@@ -625,10 +625,17 @@ func ExecWrite(b *Backend, op *Op, r *rec.Rand, full bool, probs *[]Problem) Obs
 	return o
 }
 
-// ExecHorizon runs a horizon read on one backend with the real clock.  aEnd is when the last
-// "old" operation finished, bStart when the first "new" one started; the result is only
-// comparable when old entries are safely older and new ones safely newer than the horizon.
-func ExecHorizon(b *Backend, op *Op, aEnd, bStart time.Time, probs *[]Problem) Obs {
+// OpTime records when a write op ran (real clock) and its logical tick.
+type OpTime struct {
+	Tick       int
+	Start, End time.Time
+}
+
+// ExecHorizon runs a horizon read (logical: entries with tick + H <= Now are old enough) on one
+// backend with the real clock and a horizon of HMs milliseconds.  The result is comparable only
+// when every earlier write that must be returned is safely older than the horizon and every
+// one that must be withheld safely newer (guard band); otherwise it is marked inconclusive.
+func ExecHorizon(b *Backend, op *Op, times []OpTime, probs *[]Problem) Obs {
 	o := Obs{Present: true}
 	h := time.Duration(op.HMs) * time.Millisecond
 	band := 60 * time.Millisecond
@@ -641,8 +648,14 @@ func ExecHorizon(b *Backend, op *Op, aEnd, bStart time.Time, probs *[]Problem) O
 		o.Msg = fmt.Sprint(err, err2)
 	}
 	if op.HMs > 0 {
-		if t0.Sub(aEnd) < h+band || t1.Sub(bStart) > h-band {
-			o.Incon = true
+		for _, ot := range times {
+			if ot.Tick+op.H <= op.Now {
+				if t0.Sub(ot.End) < h+band {
+					o.Incon = true
+				}
+			} else if t1.Sub(ot.Start) > h-band {
+				o.Incon = true
+			}
 		}
 	}
 	o.Asc = l
